@@ -206,6 +206,8 @@ func (r *WordRenderer) renderInlineContent(node ast.Node, para *document.Paragra
 
 		case *ast.Image:
 			r.renderImageInline(n, para)
+		case *extast.TaskCheckBox:
+			// 复选框由列表项的前缀符号表示
 		case *extast.Strikethrough:
 			// 处理删除线
 			text := r.extractTextContent(n)
@@ -246,32 +248,59 @@ func (r *WordRenderer) renderList(node *ast.List) (ast.WalkStatus, error) {
 
 // renderListItem 渲染列表项
 func (r *WordRenderer) renderListItem(node *ast.ListItem) (ast.WalkStatus, error) {
-	// 检查是否包含任务复选框
-	hasTaskCheckBox := false
-	for child := node.FirstChild(); child != nil; child = child.NextSibling() {
-		if _, ok := child.(*extast.TaskCheckBox); ok {
-			hasTaskCheckBox = true
-			break
-		}
-	}
-
-	// 如果包含任务复选框且启用了任务列表，让TaskCheckBox节点处理
-	if hasTaskCheckBox && r.opts.EnableTaskList {
-		// 任务列表项将由TaskCheckBox节点处理
-		return ast.WalkContinue, nil
-	}
-
-	// 普通列表项处理
-	text := r.extractTextContent(node)
-
 	// 简单的列表项处理，后续可以扩展为真正的列表格式
 	// 这里暂时使用缩进和符号来模拟列表
 	indent := strings.Repeat("  ", r.listLevel-1)
-	bulletText := "• " + text
 
-	r.doc.AddParagraph(indent + bulletText)
+	first := true
+	for child := node.FirstChild(); child != nil; child = child.NextSibling() {
+		switch c := child.(type) {
+		case *ast.TextBlock, *ast.Paragraph:
+			prefix := indent + "  "
+			if first {
+				prefix = indent + r.listItemMarker(child)
+			}
+			// 列表项自身的文本：符号 + 带格式的内联内容
+			para := r.doc.AddParagraph(prefix)
+			r.renderInlineContent(child, para)
+		case *ast.List:
+			// 嵌套列表的每一项各占一个段落（缩进一级）
+			r.renderList(c)
+		default:
+			// 列表项中的其他块（代码块、引用等）按普通块渲染
+			if first {
+				r.doc.AddParagraph(indent + "• ")
+			}
+			if err := r.Render(child); err != nil {
+				return ast.WalkStop, err
+			}
+		}
+		first = false
+	}
+	if first {
+		// 空列表项
+		r.doc.AddParagraph(indent + "• ")
+	}
 
 	return ast.WalkSkipChildren, nil
+}
+
+// listItemMarker 返回列表项的前缀符号；任务列表项使用复选框符号表示其状态
+func (r *WordRenderer) listItemMarker(textBlock ast.Node) string {
+	if box, ok := textBlock.FirstChild().(*extast.TaskCheckBox); ok {
+		if r.opts.EnableTaskList {
+			if box.IsChecked {
+				return "☑ "
+			}
+			return "☐ "
+		}
+		// 任务列表被关闭：保留原始文本
+		if box.IsChecked {
+			return "• [x] "
+		}
+		return "• [ ] "
+	}
+	return "• "
 }
 
 // renderBlockquote 渲染引用块
